@@ -19,6 +19,18 @@ notes = {}
 np = os.path.join(HERE, "seeded", "NOTES.json")
 if os.path.exists(np):
     notes = json.load(open(np))
+def readme_bits(path):
+    """(title, 'what it needs to manifest' section) of the author's README"""
+    try:
+        txt = open(path).read()
+    except OSError:
+        return None, None
+    title = txt.strip().splitlines()[0].lstrip("# ").strip() if txt.strip() else None
+    m = re.search(r"^#+\s*[^\n]*\b(needs|manifest)[^\n]*\n(.*?)(?=^#+\s|\Z)", txt, re.S | re.M | re.I)
+    needs = re.sub(r"\s+", " ", m.group(2)).strip()[:900] if m else None
+    return title, needs
+
+
 rows = []
 for P in sorted(os.listdir(root)):
     sd = os.path.join(root, P, "SEED")
@@ -43,15 +55,17 @@ for P in sorted(os.listdir(root)):
                 shutil.copy(os.path.join(v, f), os.path.join(dst, f))
         st, info = ev.get((P, X), ("NOT-EVALUATED", {}))
         key = "%s_%s" % (P, X)
+        title, needs = readme_bits(os.path.join(v, "README.md"))
         meta = {
             "property": P, "variant": X,
-            "breaks": notes.get(key, {}).get("breaks", "see README.md (written by the sub-agent that authored the change)"),
-            "needs_to_manifest": notes.get(key, {}).get("needs", "see README.md"),
+            "breaks": notes.get(key, {}).get("breaks") or ("property %s: %s" % (P, title or "see README.md")),
+            "needs_to_manifest": notes.get(key, {}).get("needs") or needs or "see README.md",
             "confirmed_by_me": {"command": "tools/seedconfirm.sh %s SEED/%s (git apply patch; cargo build --release; cargo test skipping the 3 timing-out "
                                             "perft tests; demo with the change; git checkout; rebuild; demo without)" % (os.path.join(root, P), X),
                                 "result": summ},
             "checks_run": "tools/seedeval.py: patch applied to a scratch copy of /repo, facts re-extracted, all registered checks run",
             "detected": st == "CAUGHT", "detected_by": info,
+            "first_evaluation": notes.get(key, {}).get("first_pass", ""),
         }
         json.dump(meta, open(os.path.join(dst, "meta.json"), "w"), indent=1)
         rows.append((P, X, st, summ, info))
